@@ -130,7 +130,8 @@ def handle (j : Json) : Except String Json := do
   let dflts := defs.flatMap defaultsOf ++
     s.directives.flatMap (fun d => d.args.filterMap (fun a => a.default.map (fun v => (s!"@{d.name}({a.name})", a.type, v))))
   let dflts := dflts.filter (fun d => !d.2.2.isNull)
-  return Json.mkObj [("tree", encResult depth r),
+  let wf := wfInputTypes s.types && s.types.all membersOnce
+  return Json.mkObj [("tree", encResult depth r), ("wf", Json.bool wf),
     ("closure", Json.arr ((typesClosure s supplied).map jstr).toArray),
     ("defaults", Json.arr (dflts.map (encDefault s all)).toArray)]
 
